@@ -34,3 +34,5 @@ def run(ctx):
     S.r04_3_registrations(ctx)
     from . import round3 as R3
     R3.r11_7_per_call_loader(ctx)
+    from . import memo_rules as M
+    M.memo_sound(ctx, 'R11.M')
